@@ -1036,7 +1036,15 @@ func (w *Worker) Nack(ctx context.Context, batch *Batch, taskID string) error {
 
 		ackErr := w.Source.Ack(ctx, originalBatch.positions[:n])
 		if ackErr != nil && !isClosedSourceStream(ackErr) {
-			return cerrors.Errorf("task %s failed to ack %d records in source: %w", taskID, n, ackErr)
+			ackErr = cerrors.Errorf("task %s failed to ack %d records in source: %w", taskID, n, ackErr)
+			if err != nil {
+				// Keep DLQ.Nack's own error in the chain, same as above: it is
+				// frequently fatal (nack threshold exceeded, partial DLQ
+				// write) and the ack failure must not turn it into a transient
+				// failure that recovery answers with a restart.
+				return cerrors.Join(ackErr, cerrors.Errorf("failed to nack %d records: %w", len(batch.records)-n, err))
+			}
+			return ackErr
 		}
 		// io.EOF suppressed, same as Ack (#1659).
 
